@@ -344,7 +344,7 @@ pub fn run(ctx: &Ctx) -> i32 {
         }
     };
     let quick = ctx.quick();
-    let n_items = ctx.n(400, 8000);
+    let n_items = ctx.n(2000, 12000);
     let acc = par_items(ctx, "C19", n_items, |item, rng, acc| {
         if item % 2 == 0 {
             census_case(item, rng, acc, &range, quick)
